@@ -51,6 +51,7 @@ type ModOpts struct {
 	CaseNames    bool // in a quarter of the sets, rename a condition / relation / type to the upper-case form of another one (names that differ only in case)
 	Twice        bool // one set in six: two more files, identical to the byte, each re-defining an existing type (the same conflict at the same position in two files)
 	EmptySelfExt bool // one set in eight: a file declares a type without relations and extends it, without relations, itself
+	BigExt       bool // one set in ten: one extension contributes 13..20 more relations and one file 13..16 more conditions (sorts behave differently above 12 elements)
 	GlueNames    bool // one set in six: names arranged so that <type A> sep <relation> reads like <type B> sep <relation> ("a"+"."+"g.r" == "a.g"+"."+"r")
 }
 
@@ -435,6 +436,29 @@ func Modules(t *rapid.T, o ModOpts) *ModuleSet {
 			}
 		}
 		ms.Conflicts = cs
+	}
+	if o.BigExt && rapid.IntRange(0, 9).Draw(t, "bigExt") == 0 {
+		for fi := range ms.Files {
+			f := &ms.Files[fi]
+			done := false
+			for ti := range f.Model.Types {
+				if f.Extend[ti] && !f.SyntaxError && f.Module != "" {
+					n := rapid.IntRange(13, 20).Draw(t, "bigExtN")
+					for k := 0; k < n; k++ {
+						f.Model.Types[ti].Rels = append(f.Model.Types[ti].Rels, Relation{Name: c.fresh("xb"), Rw: &Rewrite{Kind: This}, Restr: []Restriction{{Type: "user"}}})
+					}
+					nc := rapid.IntRange(13, 16).Draw(t, "bigCondN")
+					for k := 0; k < nc; k++ {
+						f.Model.Conds = append(f.Model.Conds, Condition{Name: c.fresh("c"), Params: []Param{{Name: "v", Type: "int"}}, Expr: "v > 0"})
+					}
+					done = true
+					break
+				}
+			}
+			if done {
+				break
+			}
+		}
 	}
 	if o.EmptySelfExt && rapid.IntRange(0, 7).Draw(t, "emptySelfExt") == 0 {
 		// "type T" without relations and "extend type T" without relations in one file: two declarations that are equal
